@@ -157,6 +157,14 @@ WITNESSES = [
     {"kind": "reformat", "w": "F44", "src": "import os\nprint(1)  # type: whatever (\n", "db": "", "flags": T, "params": None},
     {"kind": "tidy", "w": "F45", "src": "x = 1; \\\nimport foo\ny = 2\n", "db": "", "flags": T, "params": None},
     {"kind": "tidy", "w": "F45", "src": "x = 1; \\\nimport foo\n", "db": "", "flags": T, "params": None},
+    {"kind": "tidy", "w": "empty-docstring", "src": '""\nx = 1\n', "db": S.DBS[2], "flags": T, "params": None},
+    {"kind": "tidy", "w": "empty-docstring", "src": "\'\'\'\'\'\'\nos.x\n", "db": "import os\n", "flags": T, "params": None},
+    {"kind": "tidy", "w": "empty-docstring", "src": '# c\n"" ""\nos.x\n', "db": "import os\n__mandatory_imports__=['from __future__ import division']\n", "flags": T, "params": None},
+    {"kind": "tidy", "w": "empty-docstring", "src": 'r"   "\nos.x\n', "db": "import os\n", "flags": T, "params": None},
+    {"kind": "tidy", "w": "F46", "src": "x = 1\nimport __future__\n__future__\n", "db": "__mandatory_imports__=['from __future__ import division']\n", "flags": T, "params": None},
+    # (oracle only: the ValueError comes from CompilerFlags while the first pass's output is re-read, outside the model)
+    {"kind": "tidy", "w": "F47", "oracle_only": True, "stream": "witness", "src": "import __future__.foo as bar\nbar\n", "db": "", "flags": T, "params": None},
+    {"kind": "reformat", "w": "F47", "src": "import __future__.foo as bar\nbar\n", "db": "", "flags": T, "params": None},
     {"kind": "tidy", "w": "F16", "src": "import os.path\nprint(os.getcwd())\n", "db": "import os\n", "flags": T, "params": None},
     {"kind": "tidy", "w": "F34", "src": "from os import sep as b\ndef f():\n    return b\nfrom os import pardir as b\nprint(f())\n", "db": "", "flags": T, "params": None},
 ]
@@ -417,6 +425,55 @@ def is_F43(c, im, clause):
     return ast_depth(c["src"]) >= (470 if c["kind"] in ("tidy", "cli") else 950)
 
 
+def _src_imports_plain_future(src, dotted):
+    try:
+        body = ast.parse(src).body
+    except SyntaxError:
+        return False
+    for st in body:
+        if isinstance(st, ast.Import):
+            for a in st.names:
+                if (a.name.startswith("__future__.") and a.asname) if dotted else (a.name == "__future__"):
+                    return True
+    return False
+
+
+def is_F46(c, im, clause):
+    """a plain `import __future__` in an import block after code attracts an added `from __future__ import ...`
+    (prefix_match counts the shared first component): the output has a __future__ statement after code, in the
+    same run of import statements as the `import __future__`."""
+    if clause != "compiles" or "from __future__ imports must occur" not in (im.get("nocompile") or ""):
+        return False
+    if not _src_imports_plain_future(c["src"], False):
+        return False
+    try:
+        body = ast.parse(im["out"]).body
+    except SyntaxError:
+        return False
+    for k, st in enumerate(body):
+        if isinstance(st, ast.ImportFrom) and st.module == "__future__":
+            lo = k
+            while lo > 0 and isinstance(body[lo - 1], (ast.Import, ast.ImportFrom)):
+                lo -= 1
+            hi = k
+            while hi + 1 < len(body) and isinstance(body[hi + 1], (ast.Import, ast.ImportFrom)):
+                hi += 1
+            run = body[lo:hi + 1]
+            if lo > 0 and any(isinstance(x, ast.Import) and any(a.name == "__future__" for a in x.names) for x in run):
+                return True
+    return False
+
+
+def is_F47(c, im, clause):
+    """`import __future__.foo as bar` is canonicalised to `from __future__ import foo as bar`, which the tool then takes
+    for a real __future__ statement: CompilerFlags raises ValueError (tidy) / the printed statement does not compile."""
+    if not _src_imports_plain_future(c["src"], True):
+        return False
+    if clause == "no_internal_error":
+        return im.get("exc") == "ValueError" and "CompilerFlags" in (im.get("msg") or "")
+    return clause == "compiles" and "future feature" in (im.get("nocompile") or "")
+
+
 def is_F41(c, im, clause):
     """a __future__ import and another import with the same local name in one block: ignore_shadowed drops the
     __future__ import (`from __future__ import annotations` + `from foo import annotations`)."""
@@ -443,7 +500,7 @@ def is_F42(c, im, clause):
             and isinstance(body[k].value.value, str) and body[k].value.value == im.get("doc_out"))
 
 
-CLASSIFIERS = [("F43", is_F43), ("F36", is_F36), ("F39", is_F39), ("F34", is_F34), ("F41", is_F41), ("F42", is_F42)]
+CLASSIFIERS = [("F46", is_F46), ("F47", is_F47), ("F43", is_F43), ("F36", is_F36), ("F39", is_F39), ("F34", is_F34), ("F41", is_F41), ("F42", is_F42)]
 
 
 def oracle(c, im):
